@@ -34,6 +34,31 @@ def compile_expr(ast, klong):
     return klong._backend.compile_expr_ir(ir, var_syms)
 
 
+def is_compilable_value(val, klong):
+    """True if compiled code may be given val for a variable: a Python number or a backend array."""
+    tv = type(val)
+    return tv is int or tv is float or isinstance(val, klong._backend.np.ndarray)
+
+
+def run_compiled(compiled, klong):
+    """Run a compiled expression on the current values of its variables.
+
+    Returns (True, result), or (False, None) when the interpreter has to evaluate
+    the expression: a variable has been removed or rebound to a kind of value the
+    code was not compiled for (a string, a dictionary, a function...), or the
+    compiled code raised.
+    """
+    fn, var_syms = compiled
+    try:
+        args = [klong._context[s] for s in var_syms]
+        for v in args:
+            if not is_compilable_value(v, klong):
+                return False, None
+        return True, fn(*args)
+    except Exception:
+        return False, None
+
+
 def _ast_to_ir(node, klong, var_refs):
     """Walk AST and emit IR tuples. Returns IR tree or None."""
     t = type(node)
@@ -48,12 +73,7 @@ def _ast_to_ir(node, klong, var_refs):
             val = klong._context[node]
         except KeyError:
             return None
-        tv = type(val)
-        if tv is int or tv is float:
-            if node not in var_refs:
-                var_refs[node] = f'_v{len(var_refs)}'
-            return ('var', var_refs[node])
-        if isinstance(val, klong._backend.np.ndarray):
+        if is_compilable_value(val, klong):
             if node not in var_refs:
                 var_refs[node] = f'_v{len(var_refs)}'
             return ('var', var_refs[node])
